@@ -117,7 +117,7 @@ let () =
         let impl_s = List.hd (split_on (List.hd parts) " ") and body = List.tl parts in
         let pat = impl_s = "PAT" in
         bump by_impl impl_s;
-        let spec = ref ([] : (key * int) list) in
+        let spec = ref ([] : (n list * int) list) in
         let bst = ref (b_new : int bstate) in
         let pst = ref (p_new : int pstate) in
         let effective = ref 0 and saw_prefix_rel = ref false in
